@@ -43,6 +43,41 @@ func main() {
 		tier := fs.String("tier", envOr("VERIF_TIER", "quick"), "quick|thorough")
 		_ = fs.Parse(os.Args[3:])
 		os.Exit(run(id, *tier))
+	case "check-all":
+		// runs every registered check against one load of the tree (used by the mutant matrix; not registered in MANIFEST)
+		fs := flag.NewFlagSet("check-all", flag.ExitOnError)
+		tier := fs.String("tier", "quick", "quick|thorough")
+		_ = fs.Parse(os.Args[2:])
+		prog, err := core.Load(core.LoadOpts{})
+		if err != nil {
+			fmt.Fprintf(os.Stderr, "LOAD-ERROR (no verdict): %v\n", err)
+			os.Exit(2)
+		}
+		ids := make([]string, 0)
+		for id := range checks.Registry {
+			ids = append(ids, id)
+		}
+		sort.Strings(ids)
+		worst := 0
+		for _, id := range ids {
+			code := func() (code int) {
+				defer func() {
+					if e := recover(); e != nil {
+						fmt.Fprintf(os.Stderr, "INTERNAL-ERROR property=%s: %v\n%s\n", id, e, debug.Stack())
+						code = 2
+					}
+				}()
+				rep := core.NewReport(id, *tier)
+				rep.Prog = prog
+				checks.Registry[id].Run(prog, rep)
+				return rep.Finish()
+			}()
+			fmt.Printf("RESULT %s %d\n", id, code)
+			if code > worst {
+				worst = code
+			}
+		}
+		os.Exit(worst)
 	case "term":
 		// debugging aid: sa term <rel-pkg> <Type.Method|Func>
 		if len(os.Args) < 4 {
